@@ -49,17 +49,33 @@ type specv struct {
 	servers  []int // endpoint indexes present
 	disabled int   // -1 none
 	subset   []int // nil = no subset
+	also     []int // further disabled endpoints (two at once, all of them)
+	spelled  bool  // enabled servers carry an explicit disabled=false
 }
 
-func (s specv) String() string { return fmt.Sprintf("servers=%v disabled=%d subset=%v", s.servers, s.disabled, s.subset) }
+func (s specv) String() string {
+	x := fmt.Sprintf("servers=%v disabled=%d subset=%v", s.servers, s.disabled, s.subset)
+	if len(s.also) > 0 {
+		x += fmt.Sprintf(" also-disabled=%v", s.also)
+	}
+	if s.spelled {
+		x += " flag-spelled-out"
+	}
+	return x
+}
+
+func (s specv) dis(i int) bool { return i >= 0 && (i == s.disabled || has(s.also, i)) }
 
 func (s specv) object() *proxyv1alpha1.UpstreamCluster {
 	var servers []proxyv1alpha1.UpstreamClusterServer
 	t := true
 	for _, i := range s.servers {
 		sv := proxyv1alpha1.UpstreamClusterServer{Endpoint: ep(i)}
-		if i == s.disabled {
+		if s.dis(i) {
 			sv.Disabled = &t
+		} else if s.spelled {
+			no := false
+			sv.Disabled = &no
 		}
 		servers = append(servers, sv)
 	}
@@ -92,11 +108,14 @@ func allSpecs() []specv {
 					ok = ok && has(sv, x) // validation refuses a subset that names an unknown endpoint
 				}
 				if ok {
-					out = append(out, specv{sv, d, sub})
+					out = append(out, specv{servers: sv, disabled: d, subset: sub})
 				}
 			}
 		}
 	}
+	// shapes of "disabled": two at once, all of them, and the flag spelled out as false on the enabled ones
+	out = append(out, specv{servers: []int{0, 1}, disabled: 0, also: []int{1}}, specv{servers: []int{0, 1, 2}, disabled: 0, also: []int{1}}, specv{servers: []int{0, 1, 2}, disabled: 1, also: []int{2}, subset: []int{0, 1}},
+		specv{servers: []int{0, 1, 2}, disabled: 0, also: []int{1, 2}}, specv{servers: []int{0, 1}, disabled: -1, spelled: true}, specv{servers: []int{0, 1, 2}, disabled: 1, spelled: true, subset: []int{0, 1}})
 	return out
 }
 
@@ -131,7 +150,7 @@ func (p *probeLog) check(e *clusters.EndpointInfo) bool {
 func (s *sysB) readySet(subset []int) []int {
 	var out []int
 	for _, i := range s.spec.servers {
-		if i == s.spec.disabled || !s.healthy[i] {
+		if s.spec.dis(i) || !s.healthy[i] {
 			continue
 		}
 		if subset != nil && !has(subset, i) {
@@ -200,8 +219,8 @@ func specB() xstate.Spec {
 					if !ok {
 						return fmt.Errorf("endpoint-missing: %s is in the server list but unknown to the cluster", ep(k))
 					}
-					if info.VerifProbing() != (k != s.spec.disabled) {
-						return fmt.Errorf("probing-state: after %s endpoint %d disabled=%v but a health-check loop installed=%v", s.spec, k, k == s.spec.disabled, info.VerifProbing())
+					if info.VerifProbing() != !s.spec.dis(k) {
+						return fmt.Errorf("probing-state: after %s endpoint %d disabled=%v but a health-check loop installed=%v", s.spec, k, s.spec.dis(k), info.VerifProbing())
 					}
 				}
 				for k := 0; k < 3; k++ {
@@ -213,7 +232,7 @@ func specB() xstate.Spec {
 				var i int
 				fmt.Sscanf(f[1], "%d", &i)
 				info, ok := s.ci.Endpoints.Load(ep(i))
-				if !ok || i == s.spec.disabled {
+				if !ok || s.spec.dis(i) {
 					return nil // absent or disabled endpoints are not probed
 				}
 				info.UpdateStatus(f[2] == "up", "Failure", "probe")
@@ -245,7 +264,7 @@ func specB() xstate.Spec {
 					return fmt.Errorf("picked-removed-endpoint: %s is not in the cluster's current server list %v", got.Endpoint, s.spec.servers)
 				case r.subset != nil && !has(r.subset, k):
 					return fmt.Errorf("picked-outside-subset: endpoint %d is not in the matched policy's subset %v", k, r.subset)
-				case k == s.spec.disabled:
+				case s.spec.dis(k):
 					return fmt.Errorf("picked-disabled-endpoint: endpoint %d is disabled", k)
 				case !s.healthy[k]:
 					return fmt.Errorf("picked-unhealthy-endpoint: endpoint %d is unhealthy", k)
@@ -421,7 +440,7 @@ func probing(c *ev.Check) {
 		c.Add("probe_states_checked", 1)
 		for k := 0; k < 3; k++ {
 			n := got[ep(k)]
-			enabled := has(s.servers, k) && k != s.disabled
+			enabled := has(s.servers, k) && !s.dis(k)
 			if !enabled && n >= 3 {
 				c.Violation("probing/probes-continue", fmt.Sprintf("after %s endpoint %d (disabled or removed) was probed %d times in 150 ms (interval 5 ms)", s, k, n), s.String())
 			}
